@@ -14,7 +14,7 @@ from vf import gqlfront
 from crosshair.tracers import NoTracing
 
 META = {
-    "bounds": "schema X, layouts 0 and 7; 2 documents covering a leaf of every scalar kind, enum, custom scalar, lists, objects, interface and union positions; "
+    "bounds": "schema X, layouts 0 and 7; 3 documents (2 queries, 1 mutation with a non-null root field) covering a leaf of every scalar kind, enum, custom scalar, lists, objects, interface and union positions; "
               "one adversarial value per request at any field instance: symbolic None/bool/int(unbounded)/str(all strings, non-numeric positions) or one of "
               "a 60-entry catalogue (non-finite/huge/denormal floats, huge ints, numeric strings, bytes, tuples, sets, generators, objects, exceptions, Decimal/Fraction, nested garbage)",
     "outside": "symbolic floats and numeric strings at Int/Float positions (numeric laws for all floats: C10/E2); several adversarial values in one request (C02 pairs)",
@@ -23,6 +23,7 @@ META = {
 
 DOCS = {
     "D1": "{ nn n mid { leaf { n s b i f my } leaves { n } } color a { color id n } mids { n } }",
+    "D3": "mutation { first: set(v: 1) bump deep { n leaf { n s } leaves { n } } other }",      # serially executed root fields, one of them non-null
     "D2": "{ node { id __typename } nodes { id ... on A { n } } us { __typename ... on A { n } ... on B { flag } } u { ... on B { flag } } mid { n } }",
 }
 ASTS = {k: gqlfront.parse(v) for k, v in DOCS.items()}
@@ -33,7 +34,7 @@ MID = {"n": 2, "leaf": LEAF, "leaves": [LEAF, dict(LEAF)]}
 NODE_A = {"_typename": "A", "id": "a", "n": 1, "color": "RED", "peer": None}
 NODE_B = {"_typename": "B", "id": "b2", "flag": False}
 DATA = {"n": 1, "nn": 4, "mid": MID, "mids": [MID, dict(MID)], "node": NODE_A, "us": [NODE_A, NODE_B], "nodes": [NODE_B, NODE_A],
-        "u": NODE_B, "a": NODE_A, "color": "GREEN"}
+        "u": NODE_B, "a": NODE_A, "color": "GREEN", "bump": 5, "deep": MID, "other": 6}
 
 
 class Weird:
